@@ -48,6 +48,7 @@ type Contract struct {
 	Sweep    bool // synthesized empty contract of a function checked for safety only
 	RealFloat bool // float64 treated as exact reals in this function's obligations
 	Logical  [][2]string // logical (universally quantified) variables: name, type text
+	CallbackStable []string // callback contracts: expressions left unchanged by an invocation that returns a nil error
 	MayReturnNil bool // (T, error) function that deliberately returns (nil, nil): exempt from the value-or-error convention
 	TrustedFrame bool // the modifies clause is used by callers but not checked on the body (listed as assumption)
 	AssumeFresh []string // callee expression texts whose calls return freshly allocated values and modify nothing
@@ -107,7 +108,7 @@ type Contracts struct {
 	Scope   map[string]string // package path -> file whose imports are visible to spec/ghost/lemma declarations
 }
 
-var clauseHead = regexp.MustCompile(`^(scope|func|iface|realfloat|per_iteration|calls|assume_pure|assume_fresh|assume_value_or_error|may_return_nil|trusted_frame|logical|pure_heap|pure|inline|trusted|nopanic|requires|ensures|modifies|loop|capture|assert@|ghost|spec|global|lemma)\b`)
+var clauseHead = regexp.MustCompile(`^(scope|func|iface|realfloat|per_iteration|calls|assume_pure|assume_fresh|assume_value_or_error|may_return_nil|callback_stable|trusted_frame|logical|pure_heap|pure|inline|trusted|nopanic|requires|ensures|modifies|loop|capture|assert@|ghost|spec|global|lemma)\b`)
 var labelRe = regexp.MustCompile(`^\[([^\]]+)\]\s*`)
 
 func parseContracts(repo string) (*Contracts, error) {
@@ -277,6 +278,13 @@ func (cs *Contracts) parseFile(file, pkgPath string) error {
 				cur.TrustedFrame = true
 			case "may_return_nil":
 				cur.MayReturnNil = true
+			case "callback_stable":
+				// checked on the callback itself as a postcondition, used by the library models that
+				// invoke it (an iteration that ends without an error ran only successful callbacks)
+				e := strings.TrimSpace(rest)
+				cur.CallbackStable = append(cur.CallbackStable, e)
+				cur.Ensures = append(cur.Ensures, &Clause{Kind: "ensures", File: file, Line: it.line, Label: "stable-when-it-succeeds:" + e,
+					Text: rewriteImplies("ret0 == nil ==> (" + e + ") == old(" + e + ")")})
 			case "assume_value_or_error":
 				cur.AssumeValueOrError = append(cur.AssumeValueOrError, strings.ReplaceAll(rest, " ", ""))
 			case "assume_fresh":
